@@ -720,3 +720,37 @@ func valueClassAt(v ssa.Value, target ssa.Instruction) (acc [257]bool, ok bool) 
 	}
 	return acc, true
 }
+
+// retSite is one way a return hands back a value: the value itself, or — when the returned value is
+// a φ (several error sources merged into one `return err`, as after folding a helper) — each input
+// of the φ, placed at the end of the block it comes from.
+type retSite struct {
+	Val ssa.Value
+	At  ssa.Instruction
+}
+
+func returnSites(ret *ssa.Return, idx int) []retSite {
+	var out []retSite
+	var walk func(v ssa.Value, at ssa.Instruction, depth int)
+	walk = func(v ssa.Value, at ssa.Instruction, depth int) {
+		// a result spilled to a local because the function defers (`*r = v; rundefers; return *r`)
+		if u, ok := strip(v).(*ssa.UnOp); ok && u.Op == token.MUL && depth < 4 {
+			if a, ok := u.X.(*ssa.Alloc); ok {
+				if st := lastStoreBefore(a, u); st != nil {
+					walk(st.Val, at, depth+1)
+					return
+				}
+			}
+		}
+		if ph, ok := strip(v).(*ssa.Phi); ok && depth < 4 {
+			for i, e := range ph.Edges {
+				p := ph.Block().Preds[i]
+				walk(e, p.Instrs[len(p.Instrs)-1], depth+1)
+			}
+			return
+		}
+		out = append(out, retSite{v, at})
+	}
+	walk(ret.Results[idx], ret, 0)
+	return out
+}
